@@ -201,7 +201,105 @@ fn naive_starts(t: &[u8]) -> Vec<usize> {
     s
 }
 
-fn gen_queries(r: &mut Rng, t: &[u8], n: usize, lineindex_only: bool) -> Vec<String> {
+/// Texts well beyond one block, with LF / CR / CRLF breaks (and runs of them) planted at and around
+/// multiples of power-of-two block sizes 8..65536 (offsets k·B−2 … k·B+1, so that e.g. a CR is the
+/// last byte of a block and its LF the first byte of the next), break-free stretches longer than a
+/// block, and optionally the text ending exactly at (or one byte around) a boundary.  Aimed at any
+/// chunked / blocked / SIMD-strided scan inside `LineIndex::build`.  Returns the text and the
+/// boundary offsets where something was planted.
+fn gen_boundary_text(r: &mut Rng, max_len: usize) -> (Vec<u8>, Vec<usize>) {
+    // block sizes in play for this text (1..=3 of them)
+    let mut sizes: Vec<usize> = Vec::new();
+    for _ in 0..r.range(1, 3) {
+        let lo = 3u64; // 2^3 = 8
+        let hi = (max_len.max(16).ilog2() as u64).min(16);
+        sizes.push(1usize << r.range(lo, hi));
+    }
+    let bmax = *sizes.iter().max().unwrap();
+    // length: a few blocks of the largest size in play, ending at / next to a boundary half the time
+    let blocks = r.range(1, 6) as usize;
+    let mut len = (bmax * blocks).min(max_len);
+    len = match r.below(6) {
+        0 => len,                                   // ends exactly at a boundary
+        1 => len + 1,                               // one byte into the next block
+        2 => len.saturating_sub(1),
+        3 => len + 2,
+        _ => (len + r.usize_below(bmax)).min(max_len + 2),
+    };
+    // background: break-free filler, or sparse / CRLF-lined text
+    let mut t = vec![b'a'; len];
+    match r.below(4) {
+        0 => {}
+        1 => {
+            // sparse random breaks (still leaves stretches longer than small blocks)
+            let dens = *r.pick(&[50usize, 400, 3000]);
+            for b in t.iter_mut() {
+                if r.usize_below(dens) == 0 {
+                    *b = if r.chance(1, 2) { LF } else { CR };
+                }
+            }
+        }
+        2 => {
+            // Windows-style lines of a fixed period (the CR walks through every residue class)
+            let period = r.range(3, 40) as usize;
+            let mut i = r.usize_below(period);
+            while i + 1 < len {
+                t[i] = CR;
+                t[i + 1] = LF;
+                i += period;
+            }
+        }
+        _ => {
+            for b in t.iter_mut() {
+                if r.chance(1, 7) {
+                    *b = b' ';
+                }
+            }
+        }
+    }
+    // plant break patterns around the boundaries
+    let pats: [&[u8]; 10] = [
+        &[LF],
+        &[CR],
+        &[CR, LF],
+        &[CR, LF],
+        &[CR, CR, LF],
+        &[LF, CR, LF],
+        &[CR, LF, CR, LF],
+        &[CR, CR],
+        &[LF, LF],
+        &[CR, CR, CR, LF],
+    ];
+    let mut hot = Vec::new();
+    for &b in &sizes {
+        let nb = len / b + 1;
+        let picks = nb.min(48);
+        for _ in 0..picks {
+            let k = if nb <= 48 { hot.len() % nb } else { r.usize_below(nb) } + usize::from(r.chance(1, 8));
+            let at = k * b;
+            let d = r.usize_below(4); // pattern starts at k·B − 2 … k·B + 1
+            let p = pats[r.usize_below(pats.len())];
+            let start = (at + d).saturating_sub(2);
+            for (j, &c) in p.iter().enumerate() {
+                if start + j < len {
+                    t[start + j] = c;
+                }
+            }
+            // keep the byte after a planted CR from being an accidental LF only by chance: leave as is
+            hot.push(at);
+        }
+    }
+    // the very end: sometimes a break as the last byte(s)
+    if len > 0 && r.chance(1, 3) {
+        let p = pats[r.usize_below(4)];
+        let start = len - p.len().min(len);
+        t[start..].copy_from_slice(&p[..len - start]);
+    }
+    hot.push(len);
+    (t, hot)
+}
+
+fn gen_queries(r: &mut Rng, t: &[u8], n: usize, lineindex_only: bool, hot: &[usize]) -> Vec<String> {
     let cap = succinctly::verif_hooks::VERIF_FORWARD_WALK_CAP as usize;
     let starts = naive_starts(t);
     let nl = starts.len();
@@ -215,6 +313,29 @@ fn gen_queries(r: &mut Rng, t: &[u8], n: usize, lineindex_only: bool) -> Vec<Str
         lo + r.usize_below((hi - lo).max(1))
     };
     for _ in 0..n {
+        // block-boundary texts: half of the queries sit within 3 bytes of a boundary where a break
+        // was planted (to_line_column / round trip at the offset, or to_offset on the line there)
+        if !hot.is_empty() && r.chance(1, 2) {
+            let h = *r.pick(hot);
+            let o = (h + r.usize_below(6)).saturating_sub(3);
+            if r.chance(1, 6) {
+                let q = o.min(u32::MAX as usize);
+                let li = starts.partition_point(|&s| s <= q) - 1;
+                let line = (li + r.usize_below(3)).saturating_sub(1).min(nl);
+                let col = match r.below(3) {
+                    0 => 1,
+                    1 => o.saturating_sub(starts[line.min(nl - 1)]) + 1,
+                    _ => 1 + r.usize_below(6),
+                };
+                qs.push(format!("p{}:{col}", line + 1));
+                continue;
+            }
+            let q = o.min(u32::MAX as usize);
+            cur_line = starts.partition_point(|&s| s <= q) - 1;
+            last_off = o;
+            qs.push(if r.chance(1, 3) { format!("r{o}") } else { format!("o{o}") });
+            continue;
+        }
         let mode = r.below(100);
         let off: Option<usize>;
         match mode {
@@ -337,6 +458,20 @@ pub fn gen(tier: Tier, r: &mut Rng, emit: &mut dyn FnMut(String)) {
         }
         emit(format!("C12 run 0 {} {}", hex_bytes(&t), list(&qs)));
     }
+    // block-boundary stream: texts up to ~70 KiB (quick) / 260 KiB (thorough)
+    let (n_big, big_len, big_q) = if tier == Tier::Quick { (90, 70 * 1024, 120) } else { (1200, 260 * 1024, 300) };
+    for i in 0..n_big {
+        let ml = match i % 3 {
+            0 => 9 * 1024,
+            1 => 20 * 1024,
+            _ => big_len,
+        };
+        let (t, hot) = gen_boundary_text(r, ml);
+        let via = if i % 9 == 4 { 1 } else { 0 };
+        let nq = r.range(20, big_q) as usize;
+        let qs = gen_queries(r, &t, nq, via == 0, &hot);
+        emit(format!("C12 run {via} {} {}", hex_bytes(&t), list(&qs)));
+    }
     for i in 0..n_texts {
         let kind = match i % 10 {
             0 => r.below(2),
@@ -345,16 +480,17 @@ pub fn gen(tier: Tier, r: &mut Rng, emit: &mut dyn FnMut(String)) {
             7 => 4,
             _ => 5,
         };
-        let ml = if r.chance(1, 3) { max_len } else { *r.pick(&[16usize, 64, 300, 1000]) };
+        // mostly small; one in 25 of the general texts is far beyond one 4 KiB block
+        let ml = if i % 25 == 7 { 40 * 1024 } else if r.chance(1, 3) { max_len } else { *r.pick(&[16usize, 64, 300, 1000]) };
         let t = gen_text(r, kind, ml);
-        let nq = if r.chance(1, 4) { max_q } else { r.usize_below(max_q / 3 + 1) };
+        let nq = if ml > max_len { 60 } else if r.chance(1, 4) { max_q } else { r.usize_below(max_q / 3 + 1) };
         // entry point: mostly LineIndex; JsonIndex accepts any bytes; YamlIndex only where it parses
         let via = match r.below(6) {
             0 => 1,
             1 if YamlIndex::build(&t).is_ok() => 2,
             _ => 0,
         };
-        let qs = gen_queries(r, &t, nq, via == 0);
+        let qs = gen_queries(r, &t, nq, via == 0, &[]);
         emit(format!("C12 run {via} {} {}", hex_bytes(&t), list(&qs)));
     }
 }
